@@ -24,11 +24,72 @@ package align
 //@ pure func rect(a *align) bool = forall r :: 0 <= r && r < len(a.seqs) ==> len(a.seqs[r].sequence) == a.length
 //@ pure func wfa(a *align) bool = wf(a) && rect(a) && a.length >= -1 && (len(a.seqs) > 0 ==> a.length >= 0) && (len(a.seqs) == 0 ==> a.length == -1)
 
+// dynamic type of a bag object (ghost): 1 for an *align, 0 for a plain *seqbag
+//@ ghostzero align.align isalign 1
+//@ ghostzero align.seqbag isalign 0
+//@ pure func isalign(sb *seqbag) bool = gfield(sb, isalign) == 1
+
+//@ func NewSeqBag
+//@   props C01 C03
+//@   requires alphabet == AMINOACIDS || alphabet == NUCLEOTIDS || alphabet == UNKNOWN
+//@   ensures result != nil && fresh(result) && wf(result) && nrows(result) == 0 && fresh(result.seqmap) && fresh(result.seqs) && !isalign(result)
+//@   ensures result.alphabet == alphabet && result.ignoreidentical == IGNORE_NONE
+//@   modifies nothing
+
+// interface-level contracts (assumed; they are the common part of the contracts proved for the two implementations *seqbag and *align)
+//@ func (SeqBag).AddSequence
+//@   props C03
+//@   trusted common part of (*seqbag).AddSequenceChar and (*align).AddSequenceChar through the string conversion
+//@   requires recv != nil && wf(recv) && (isalign(recv) ==> wfa(recv))
+//@   ensures wf(recv) && (isalign(recv) ==> wfa(recv)) && isalign(recv) == old(isalign(recv))
+//@   ensures nrows(recv) >= old(nrows(recv)) && nrows(recv) <= old(nrows(recv)) + 1
+//@   ensures result == nil && old(nrows(recv)) == 0 ==> nrows(recv) == 1 && rowlen(recv, 0) == len(sequence)
+//@   ensures result != nil ==> nrows(recv) == old(nrows(recv))
+//@   ensures recv.alphabet == old(recv.alphabet) && recv.ignoreidentical == old(recv.ignoreidentical)
+//@   modifies field(seqbag.seqs), field(align.length), mem(*seq), maps(map[string]*seq)
+//@ func (SeqBag).IgnoreIdentical
+//@   props C03
+//@   trusted both implementations run (*seqbag).IgnoreIdentical
+//@   requires recv != nil
+//@   modifies field(seqbag.ignoreidentical)
+//@ func (SeqBag).AutoAlphabet
+//@   props C03
+//@   trusted both implementations run (*seqbag).AutoAlphabet, which only assigns the alphabet field a valid code
+//@   requires recv != nil
+//@   ensures recv.alphabet == AMINOACIDS || recv.alphabet == NUCLEOTIDS || recv.alphabet == UNKNOWN
+//@   modifies field(seqbag.alphabet)
+//@ func (SeqBag).SetAlphabet
+//@   props C03
+//@   trusted both implementations run (*seqbag).SetAlphabet, which only assigns the alphabet field NUCLEOTIDS or AMINOACIDS
+//@   requires recv != nil
+//@   ensures recv.alphabet == old(recv.alphabet) || recv.alphabet == AMINOACIDS || recv.alphabet == NUCLEOTIDS
+//@   modifies field(seqbag.alphabet)
+
+//@ func (*seqbag).DetectAlphabet
+//@   props C03
+//@   trusted iterates over the rows with a closure passed to IterateChar (closure calls are not inlined by the generator); it only reads the residues
+//@   requires sb != nil
+//@   ensures alphabet == AMINOACIDS || alphabet == NUCLEOTIDS || alphabet == BOTH || alphabet == UNKNOWN
+//@   modifies nothing
+
+//@ func (*seqbag).AutoAlphabet
+//@   props C03 C01
+//@   requires sb != nil
+//@   ensures sb.alphabet == AMINOACIDS || sb.alphabet == NUCLEOTIDS || sb.alphabet == UNKNOWN
+//@   modifies sb.alphabet
+
+//@ func (*seqbag).SetAlphabet
+//@   props C03 C01
+//@   requires sb != nil
+//@   ensures sb.alphabet == old(sb.alphabet) || sb.alphabet == AMINOACIDS || sb.alphabet == NUCLEOTIDS
+//@   ensures err == nil ==> sb.alphabet == AMINOACIDS || sb.alphabet == NUCLEOTIDS
+//@   modifies sb.alphabet
+
 //@ func NewAlign
-//@   props C01 C04 C19
+//@   props C01 C04 C19 C03
 //@   requires alphabet == AMINOACIDS || alphabet == NUCLEOTIDS || alphabet == UNKNOWN || alphabet == BOTH
 //@   ensures result != nil && fresh(result) && wfa(result) && nrows(result) == 0 && result.length == -1 && fresh(result.seqmap) && fresh(result.seqs)
-//@   ensures result.alphabet == (alphabet == BOTH ? NUCLEOTIDS : alphabet) && result.ignoreidentical == IGNORE_NONE
+//@   ensures result.alphabet == (alphabet == BOTH ? NUCLEOTIDS : alphabet) && result.ignoreidentical == IGNORE_NONE && isalign(result)
 //@   modifies nothing
 
 //@ pure func sameseq(s *seq, t []uint8) bool = len(s.sequence) == len(t) && (forall k :: 0 <= k && k < len(t) ==> s.sequence[k] == t[k])
